@@ -443,6 +443,43 @@ def run_F(chk):
                         f"{name}(): the test that decides whether legs with different sector content have to be embedded is evaluated only for a "
                         f"selected subset of the legs (`{A.short(g.generators[0].iter, 40)}`), while leg unions are formed for every leg: a mismatch on a leg "
                         f"outside the subset is not embedded and blocks are combined at wrong offsets / with wrong shapes")
+    # --- F5: parallel stacks of the fusion-tree parsers are consumed in lock-step
+    chk.rule("F5", "fusion-tree parsers pop their parallel stacks (signatures, charges, dimensions, masks / histories) together, under the same conditions", floor=8)
+    for f in prog.all_funcs({MRG}):
+        fn = f.node
+        if ".pop(" not in A.text(fn):
+            continue
+        par = A.enclosing_map(fn)
+        groups = {}
+        for st in A.walk_local(fn, include_self=False):
+            if not isinstance(st, ast.Assign):
+                continue
+            pops = [c for c in ast.walk(st.value) if isinstance(c, ast.Call) and isinstance(c.func, ast.Attribute) and c.func.attr == "pop" and len(c.args) == 1
+                    and isinstance(c.args[0], ast.Name)]
+            counts = [g.iter for x in ast.walk(st.value) if isinstance(x, (ast.GeneratorExp, ast.ListComp)) for g in x.generators
+                      if isinstance(g.iter, ast.Call) and A.call_name(g.iter) == "range" and isinstance(g.target, ast.Name) and g.target.id == "_"]
+            if len(pops) != 1 or not counts:
+                continue
+            loop = st
+            while loop in par and not isinstance(loop, (ast.For, ast.While)):
+                loop = par[loop]
+            if not isinstance(loop, (ast.For, ast.While)):
+                continue
+            groups.setdefault((id(loop), A.text(counts[0])), []).append((st, pops[0]))
+        for (_lid, cnt), members in groups.items():
+            if len(members) < 3:
+                continue
+            blocks = {}
+            for st, pc in members:
+                blk = A.block_of(st, par)
+                blocks.setdefault(id(blk), []).append((st, pc))
+            major = max(blocks.values(), key=len)
+            for st, pc in members:
+                ok = (st, pc) in major
+                chk.verdict("F5", (f, st), f"{f.name}: `{A.short(st, 60)}` pops with its siblings ({len(major)} of {len(members)} in one block)", True if ok else False,
+                            f"{f.name}(): `{A.short(st, 70)}` pops `{A.text(pc.func.value)}` under another condition than the parallel stacks "
+                            f"({', '.join(A.text(p2.func.value) for s2, p2 in major)}): on the path that skips it the stack keeps the entries of a node that was already "
+                            f"reduced, and every later node reads signatures / charges that belong to other leaves (wrong masks for nested fusions such as p(s(oo)o))")
     # sibling: fuse and unfuse derive the leg decomposition from the same table builder
     mf, mu = prog.func(MRG, "_meta_fuse_hard"), prog.func(MRG, "_meta_unfuse_hard")
     for f in (mf, mu):
